@@ -557,22 +557,39 @@ def ncc_loss(
     if source.shape != target.shape:
         raise ValueError("ncc_loss() 'source' must have same shape as 'target'")
 
+    if mask is not None:
+        if not isinstance(mask, Tensor):
+            raise TypeError("ncc_loss() 'mask' must be tensor")
+        if mask.ndim != source.ndim:
+            raise ValueError("ncc_loss() 'mask' must have same number of dimensions as 'source'")
+        # Weights of image samples, i.e., zero for samples to ignore
+        mask = mask.expand_as(source).reshape(source.shape[0], -1).float()
+
     source = source.reshape(source.shape[0], -1).float()
     target = target.reshape(source.shape[0], -1).float()
 
-    source_mean = source.mean(dim=1, keepdim=True)
-    target_mean = target.mean(dim=1, keepdim=True)
+    if mask is None:
+        source_mean = source.mean(dim=1, keepdim=True)
+        target_mean = target.mean(dim=1, keepdim=True)
+    else:
+        norm = mask.sum(dim=1, keepdim=True).add(epsilon)
+        source_mean = source.mul(mask).sum(dim=1, keepdim=True).div(norm)
+        target_mean = target.mul(mask).sum(dim=1, keepdim=True).div(norm)
 
     x = source.sub(source_mean)
     y = target.sub(target_mean)
 
-    a = x.mul(y).sum(dim=1)
-    b = x.square().sum(dim=1)
-    c = y.square().sum(dim=1)
+    if mask is None:
+        a = x.mul(y).sum(dim=1)
+        b = x.square().sum(dim=1)
+        c = y.square().sum(dim=1)
+    else:
+        a = x.mul(y).mul(mask).sum(dim=1)
+        b = x.square().mul(mask).sum(dim=1)
+        c = y.square().mul(mask).sum(dim=1)
 
     loss = a.square_().div_(b.mul_(c).add_(epsilon)).neg_().add_(1)
-    loss = masked_loss(loss, mask, "ncc_loss")
-    loss = reduce_loss(loss, reduction, mask)
+    loss = reduce_loss(loss, reduction)
     return loss
 
 
